@@ -4,7 +4,7 @@
    answers call k with the k-th element of [ans] (true = Some(()), exhausted list = true) and a date parser [date].
    [parse date input ans] = (delegate calls with their answers, Ok tt | Err e | Panic | OutOfFuel). *)
 From GixV.Base Require Import Bytes BytesFacts Outcome.
-From GixV.C48 Require Import Model Spec ProofsTotal ProofsRT.
+From GixV.C48 Require Import Model Spec ProofsTotal ProofsRT ProofsTop.
 
 (* The tokenizer is total: whatever the bytes of the spec, whatever the delegate answers and whatever the date
    parser does, no index, slice, expect() or unwrap of the tokenizer panics and its only unbounded loop terminates
@@ -36,7 +36,24 @@ Theorem navigation_roundtrip : forall ns fuel pre tail s,
   navigate fuel (pre ++ pnavs ns ++ tail) (length pre) s = (pushed (map nav_call ns) s, Ok tail).
 Proof. exact navigate_printed. Qed.
 
+(* whole-spec round trip: a reference name (letters, digits, '/', '_', not all hex digits) followed by any navigation
+   list is tokenized — by the complete [parse], with an accepting delegate, for every date parser — into
+   find_ref(name), the navigation calls, done; the result is Ok. *)
+Theorem ref_with_navigation_roundtrip : forall date name ns, ref_name_ok name -> Forall nav_wf ns ->
+  parse date (name ++ pnavs ns) [] =
+  (map (fun c => (c, true)) (CFindRef name :: map nav_call ns ++ [CDone]), Ok tt).
+Proof. exact parse_ref_navigation. Qed.
+
 (* non-vacuity *)
+Example ref_navigation_example :
+  ref_name_ok (bs "refs/heads/main") /\ (Forall nav_wf [NAnc 2; NPar 1; NPeel KTree] /\
+  bs "refs/heads/main" ++ pnavs [NAnc 2; NPar 1; NPeel KTree] = bs "refs/heads/main~2^1^{tree}")%type.
+Proof.
+  split; [|split].
+  - split; [discriminate|split; reflexivity].
+  - repeat constructor; vm_compute; discriminate.
+  - reflexivity.
+Qed.
 Example navigation_example :
   navigate 10 (bs "main~3^2^{tree}^{}..x") 4 (init []) =
   (pushed [CAncestor 3; CParent 2; CPeelKind KTree; CPeelRec] (init []), Ok (bs "..x")).
